@@ -119,7 +119,7 @@ Section C17.
     destruct (r_tlen o) as [tlen|]; [|apply ckc_refl].
     destruct (a_pid_with (ro_fec oti) p) as [[[sbn esi] sbl]|]; [|apply ckc_refl].
     destruct (tlen =? 0).
-    { pose proof (ckc_complete o c) as K. destruct (complete o c) as [o1 c1]. exact K. }
+    { destruct (r_writer o); [|apply ckc_refl]. pose proof (ckc_complete o c) as K. destruct (complete o c) as [o1 c1]. exact K. }
     destruct (sbn <? r_off o); [apply ckc_refl|].
     destruct (match sbl with None => nb_blocks_of oti tlen <=? sbn | Some _ => false end); [apply ckc_refl|].
     destruct ((N.of_nat (length (r_blocks o)) <=? sbn - r_off o) && (4096 <? sbn - r_off o)); [apply ckc_set_state|].
